@@ -74,6 +74,19 @@ def strategy(tier):
     })
 
 
+def enumerate_cases(tier):
+    """the network stack refuses one frame (ENOBUFS): every frame number of
+    a scan / an initialisation of a small bus in turn"""
+    for mode in ("scan", "init", "scan-then-init", "gentle"):
+        for terms in ([0, 0, 1003, 0, 55, 0], [0, 1001, 0]):
+            for at in range(0, 26):
+                yield {"width": 20, "terms": terms,
+                       "choices": [3, 3, 7, 1, 9, 12, 2, 3, 18, 4],
+                       "mode": mode, "latency": [0, 1, 0, 2],
+                       "serials": [0, 1, 2, 3, 4, 5] * 2, "dup_pre": False,
+                       "send_error_at": at, "tight": False, "reserve": 0}
+
+
 class Watched(simbus.TerminalModel):
     def __init__(self, idx, world, **kw):
         super().__init__(**kw)
